@@ -99,6 +99,7 @@ type instance struct {
 	waitProc    chan struct{}
 	failedSince *time.Time
 	reloadOwed  bool
+	rewriteOwed bool
 	logger      types.Logger
 	options     *InstanceOptions
 	config      Config
@@ -303,6 +304,15 @@ func (i *instance) HAProxyUpdate(timer *utils.Timer) error {
 	defer i.config.Commit()
 	i.config.SyncConfig()
 	i.config.Shrink()
+	// A failed write returns before the remaining files are written and the deferred Commit
+	// forgets what was changed. Until an update gets past writeConfig, the next one rewrites
+	// every file from the current model and reloads.
+	rewrite := i.rewriteOwed
+	i.rewriteOwed = true
+	if rewrite {
+		i.logger.Info("the last update failed to write its files, rewriting all of them")
+		i.config.ForceRewrite()
+	}
 	if err := i.config.WriteTCPServicesMaps(); err != nil {
 		i.metrics.IncUpdateNoop()
 		return fmt.Errorf("error building tcp services maps: %w", err)
@@ -326,6 +336,9 @@ func (i *instance) HAProxyUpdate(timer *utils.Timer) error {
 	}
 	updater := i.newDynUpdater()
 	updated := updater.update()
+	if rewrite {
+		updated = false
+	}
 	if i.options.SortEndpointsBy != "random" {
 		i.config.Backends().SortChangedEndpoints(i.options.SortEndpointsBy)
 	} else if !updated {
@@ -347,6 +360,7 @@ func (i *instance) HAProxyUpdate(timer *utils.Timer) error {
 			return fmt.Errorf("error writing configuration: %w", err)
 		}
 	}
+	i.rewriteOwed = false
 	i.updateCertExpiring()
 	defer func() {
 		if i.failedSince != nil {
